@@ -5,6 +5,7 @@ import IoraModel.Lemmas.BlockingQueue
 import IoraModel.Lemmas.BlockingQueueLogs
 import IoraModel.Lemmas.BlockingQueueBroadcast
 import IoraModel.Lemmas.BlockingQueueDestroy
+import IoraModel.Lemmas.BlockingQueueClosedPush
 import IoraModel.Lemmas.RingSpscObs
 import IoraModel.Lemmas.RingThrow
 import IoraModel.Model.BqSkelTrace
@@ -301,6 +302,37 @@ theorem Q3_closed_refuses (cap : Nat) (ps : List (List BQ.Call)) (sched more : L
     s.data.closed = true →
     (run (BQ.prog true) s more).data.puts = s.data.puts ∧ (run (BQ.prog true) s more).data.closed = true :=
   fun hc => BQ.closed_run _ hc more
+
+open Monitor in
+/-- **Q3b, step by step (a push step has `_closed = false`).** In EVERY reachable state and for EVERY next step of ANY
+thread: if `_closed` is set, the step pushes nothing, does not make the queue longer and leaves it closed - equivalently, a
+step that pushes starts from an open queue.  This covers a producer that went to sleep on a full OPEN queue and is woken by
+a take followed by another thread's `close()` (seeded change C10-e: re-testing only `size >= maxSize` after the wait): the
+step in which it re-acquires `_mutex` re-reads `_closed` and returns false. -/
+theorem Q3_push_only_while_open (cap : Nat) (ps : List (List BQ.Call)) (sched : List Choice) (c : Choice) :
+    let s := run (BQ.prog true) (BQ.init cap ps) sched
+    (s.data.closed = true →
+      (step (BQ.prog true) s c).data.puts = s.data.puts ∧ (step (BQ.prog true) s c).data.q.length ≤ s.data.q.length ∧
+      (step (BQ.prog true) s c).data.closed = true) ∧
+    ((step (BQ.prog true) s c).data.puts ≠ s.data.puts → s.data.closed = false) := by
+  intro s
+  refine ⟨fun hc => BQ.closed_step_no_push cap ps sched c hc, fun hne => ?_⟩
+  cases hcl : s.data.closed with
+  | false => rfl
+  | true => exact absurd (BQ.closed_step_no_push cap ps sched c hcl).1 hne
+
+open Monitor in
+/-- non-vacuity (the C10-e shape): capacity 1, producer `queue 100; queue 101`, consumer `dequeue; close`.  The producer
+sleeps in its second put on the full queue; the consumer takes the item (notify) and closes; the woken producer then
+re-acquires the mutex on a queue that has room AND is closed: it does not push (one item in the log) and returns false. -/
+example :
+    let s := run (BQ.prog true) (BQ.init 1 [[.queue 100, .queue 101], [.dequeue, .close]])
+      [.run 0 0, .run 0 0, .run 0 0, .run 0 0, .run 0 0, .run 0 0,
+       .run 1 0, .run 1 0, .run 1 0, .run 1 0, .run 1 0, .run 1 0, .run 1 0, .run 1 0]
+    s.data.closed = true ∧ s.data.q = [] ∧ (s.thr 0).status = .woken BQ.M false false ∧
+    (step (BQ.prog true) s (.run 0 0)).data.puts = [(0, 100)] ∧
+    ((step (BQ.prog true) s (.run 0 0)).thr 0).loc.pc = .unlockRet (.bool false) := by
+  decide
 
 /-- **Q3c (queued items stay retrievable).** A `dequeue`, timed `dequeue` or `tryDequeue` that obtains the mutex while the
 queue is non-empty takes the oldest item without waiting — whether or not the queue is closed. -/
